@@ -12,7 +12,9 @@ import (
 	"github.com/trustbloc/sidetree-core-go/pkg/api/operation"
 	"github.com/trustbloc/sidetree-core-go/pkg/api/protocol"
 	"github.com/trustbloc/sidetree-core-go/pkg/api/txn"
+	"github.com/trustbloc/sidetree-core-go/pkg/compression"
 	"github.com/trustbloc/sidetree-core-go/pkg/versions/1_0/operationparser"
+	"github.com/trustbloc/sidetree-core-go/pkg/versions/1_0/txnprovider"
 
 	"verif/harness/internal/emit"
 	"verif/harness/internal/out"
@@ -623,6 +625,8 @@ func runC14(c *ctx) error {
 		n = 40000
 	}
 	vb := world.NewViewBuilder(e.cas, e.p, e.ver.Parser, e.ids)
+	altProv := txnprovider.NewOperationProvider(e.p, e.ver.Parser, mirrorCAS{e.cas}, compression.New(compression.WithDefaultAlgorithms()),
+		txnprovider.WithSourceCASURIFormatter(func(uri, source string) (string, error) { return source + "/" + uri, nil }))
 	for i := 0; i < n; i++ {
 		// a fresh valid file set
 		var ops []world.ClientOp
@@ -651,7 +655,13 @@ func runC14(c *ctx) error {
 			}
 		}
 		anchor := e.store(fs)
+		// every third case: the local CAS read fails and the content comes from an alternate source
 		var alt []string
+		prov := e.ver.Provider
+		if i%3 == 1 {
+			alt = []string{"dead", "mirror"}
+			prov = altProv
+		}
 		view := vb.Anchor(anchor)
 		desc := map[string]interface{}{"mutations": applied, "anchor_string": anchor}
 		// run the provider, crash isolated by recover
@@ -664,8 +674,10 @@ func runC14(c *ctx) error {
 					pan = fmt.Sprint(x)
 				}
 			}()
-			rb, rerr = e.ver.Provider.GetTxnOperations(&txn.SidetreeTxn{AnchorString: anchor, Namespace: "did:sidetree", AlternateSources: alt})
+			rb, rerr = prov.GetTxnOperations(&txn.SidetreeTxn{AnchorString: anchor, Namespace: "did:sidetree", AlternateSources: alt})
 		}()
+		desc["alternate_sources"] = alt
+		r.Count("cas_source", map[bool]string{true: "alternate", false: "local"}[alt != nil])
 		outcome := "ok"
 		rbG := "None"
 		switch {
@@ -710,4 +722,15 @@ func errClass(s string) string {
 		}
 	}
 	return "other"
+}
+
+// mirrorCAS fails every local read; the same content is reachable through the alternate source "mirror".
+type mirrorCAS struct{ inner *world.MapCAS }
+
+func (m mirrorCAS) Write(b []byte) (string, error) { return m.inner.Write(b) }
+func (m mirrorCAS) Read(k string) ([]byte, error) {
+	if !strings.HasPrefix(k, "mirror/") {
+		return nil, fmt.Errorf("local CAS unavailable")
+	}
+	return m.inner.Read(strings.TrimPrefix(k, "mirror/"))
 }
